@@ -220,9 +220,13 @@ def resolve_entity(entity):
             return entity
         try:
             if entity[2] == "x" or entity[2] == "X":
-                return chr(int(entity[3:-1], 16))
+                code = int(entity[3:-1], 16)
             else:
-                return chr(int(entity[2:-1]))
+                code = int(entity[2:-1])
+            if 0xD800 <= code <= 0xDFFF:
+                # not a character: a lone surrogate in the tree cannot be encoded by any writer or url
+                return entity
+            return chr(code)
         except (ValueError, OverflowError):
             return entity
     else:
